@@ -70,6 +70,12 @@ Definition sel (o : outcome) (r : result) := match o with Normal => rN r | Exn =
 Definition list_eqb (a b : list nat) := if list_eq_dec Nat.eq_dec a b then true else false.
 Definition st_eqb (a b : st) := list_eqb (held a) (held b) && list_eqb (written a) (written b).
 Definition subset (a b : list st) := forallb (fun x => existsb (st_eqb x) b) a.
+(* duplicate removal: keeps the analyser's state sets small (the states themselves are tiny) *)
+Fixpoint dd (l : list st) : list st :=
+  match l with
+  | [] => []
+  | x :: t => if existsb (st_eqb x) t then dd t else x :: dd t
+  end.
 
 Section An.
 Variable fuel_loop : nat.
@@ -80,12 +86,12 @@ Fixpoint an (c : cmd) (A : list st) : option result :=
   | Call aw _ => Some {| rN := A; rE := A; rC := (if aw then A else []); rR := [] |}
   | Eff e => Some {| rN := map (apply e) A; rE := []; rC := []; rR := [] |}
   | Seq a b => match an a A with None => None | Some ra =>
-                 match an b (rN ra) with None => None | Some rb =>
+                 match an b (dd (rN ra)) with None => None | Some rb =>
                    Some {| rN := rN rb; rE := rE ra ++ rE rb; rC := rC ra ++ rC rb; rR := rR ra ++ rR rb |} end end
   | Choice a b => match an a A, an b A with Some ra, Some rb => Some (union ra rb) | _, _ => None end
   | TryFinally body fin =>
       match an body A with None => None | Some rb =>
-        match an fin (rN rb), an fin (rE rb), an fin (rC rb), an fin (rR rb) with
+        match an fin (dd (rN rb)), an fin (dd (rE rb)), an fin (dd (rC rb)), an fin (dd (rR rb)) with
         | Some fN, Some fE, Some fC, Some fR =>
           Some {| rN := rN fN;
                   rE := rN fE ++ rE fN ++ rE fE ++ rE fC ++ rE fR;
@@ -94,7 +100,7 @@ Fixpoint an (c : cmd) (A : list st) : option result :=
         | _, _, _, _ => None end end
   | TryExcept body cc h rr =>
       match an body A with None => None | Some rb =>
-        match an h (rE rb), an h (if cc then rC rb else []) with
+        match an h (dd (rE rb)), an h (dd (if cc then rC rb else [])) with
         | Some hE, Some hC =>
           Some {| rN := rN rb ++ (if rr then [] else rN hE ++ rN hC);
                   rE := (if rr then rN hE else []) ++ rE hE ++ rE hC;
@@ -104,8 +110,8 @@ Fixpoint an (c : cmd) (A : list st) : option result :=
   | Loop body =>
       (* iterate to a candidate invariant, then CHECK it is closed *)
       let fix it n X := match n with O => X | S n' =>
-            match an body X with Some r => it n' (X ++ rN r) | None => X end end in
-      let X := it fuel_loop A in
+            match an body X with Some r => it n' (dd (X ++ rN r)) | None => X end end in
+      let X := it fuel_loop (dd A) in
       match an body X with
       | Some r => if subset (rN r) X then Some {| rN := X; rE := rE r; rC := rC r; rR := rR r |} else None
       | None => None end
@@ -139,11 +145,20 @@ Section Sound.
 Variable fuel_loop : nat.
 Notation an := (an fuel_loop).
 
+Lemma dd_in x l : In x l -> In x (dd l).
+Proof.
+  induction l as [|y t IH]; intro H; [contradiction|]. cbn [dd].
+  destruct (existsb (st_eqb y) t) eqn:E.
+  - destruct H as [->|H]; [|auto].
+    apply existsb_exists in E as (z & Hz & Ez). apply st_eqb_true in Ez. subst. auto.
+  - destruct H as [->|H]; [now left|right; auto].
+Qed.
+
 Definition it body := fix it n X := match n with O => X | S n' =>
-            match an body X with Some r => it n' (X ++ rN r) | None => X end end.
+            match an body X with Some r => it n' (dd (X ++ rN r)) | None => X end end.
 Lemma it_incl body n : forall X x, In x X -> In x (it body n X).
 Proof. induction n as [|n IH]; intros X x H; simpl; auto.
-  destruct (an body X); auto. apply IH. apply in_or_app; auto. Qed.
+  destruct (an body X); auto. apply IH. apply dd_in. apply in_or_app; auto. Qed.
 
 Definition post o (r : result) X := match o with Normal => X | _ => sel o r end.
 
@@ -159,12 +174,12 @@ Proof.
   - simpl in Han. inversion Han; subst; simpl; auto.
   - simpl in Han. inversion Han; subst; simpl. now apply in_map.
   - (* SeqN *) simpl in Han. destruct (an a A) as [ra|] eqn:Ea; [|discriminate].
-    destruct (an b (rN ra)) as [rb|] eqn:Eb; [|discriminate]. inversion Han; subst; clear Han.
+    destruct (an b (dd (rN ra))) as [rb|] eqn:Eb; [|discriminate]. inversion Han; subst; clear Han.
     destruct IHexec1 as [I1 _]. destruct IHexec2 as [I2 _].
-    specialize (I1 _ _ HA Ea). simpl in I1. specialize (I2 _ _ I1 Eb).
+    specialize (I1 _ _ HA Ea). simpl in I1. specialize (I2 _ _ (dd_in _ _ I1) Eb).
     destruct o; simpl in *; auto; apply in_or_app; auto.
   - (* SeqA *) simpl in Han. destruct (an a A) as [ra|] eqn:Ea; [|discriminate].
-    destruct (an b (rN ra)) as [rb|] eqn:Eb; [|discriminate]. inversion Han; subst; clear Han.
+    destruct (an b (dd (rN ra))) as [rb|] eqn:Eb; [|discriminate]. inversion Han; subst; clear Han.
     destruct IHexec as [I1 _]. specialize (I1 _ _ HA Ea).
     destruct o; simpl in *; try congruence; apply in_or_app; auto.
   - simpl in Han. destruct (an a A) as [ra|] eqn:Ea; [|discriminate].
@@ -174,56 +189,56 @@ Proof.
     destruct (an b A) as [rb|] eqn:Eb; [|discriminate]. inversion Han; subst.
     destruct IHexec as [I _]. specialize (I _ _ HA Eb). destruct o; simpl; apply in_or_app; auto.
   - (* TF normal fin *) simpl in Han. destruct (an body A) as [rb|] eqn:Eb; [|discriminate].
-    destruct (an fin (rN rb)) as [fN|] eqn:EN; [|discriminate].
-    destruct (an fin (rE rb)) as [fE|] eqn:EE; [|discriminate].
-    destruct (an fin (rC rb)) as [fC|] eqn:EC; [|discriminate].
-    destruct (an fin (rR rb)) as [fR|] eqn:ER; [|discriminate]. inversion Han; subst; clear Han.
+    destruct (an fin (dd (rN rb))) as [fN|] eqn:EN; [|discriminate].
+    destruct (an fin (dd (rE rb))) as [fE|] eqn:EE; [|discriminate].
+    destruct (an fin (dd (rC rb))) as [fC|] eqn:EC; [|discriminate].
+    destruct (an fin (dd (rR rb))) as [fR|] eqn:ER; [|discriminate]. inversion Han; subst; clear Han.
     destruct IHexec1 as [I1 _]. destruct IHexec2 as [I2 _]. specialize (I1 _ _ HA Eb).
     destruct o1; simpl in *.
-    + exact (I2 _ _ I1 EN).
-    + apply in_or_app; left. exact (I2 _ _ I1 EE).
-    + apply in_or_app; left. exact (I2 _ _ I1 EC).
-    + apply in_or_app; left. exact (I2 _ _ I1 ER).
+    + exact (I2 _ _ (dd_in _ _ I1) EN).
+    + apply in_or_app; left. exact (I2 _ _ (dd_in _ _ I1) EE).
+    + apply in_or_app; left. exact (I2 _ _ (dd_in _ _ I1) EC).
+    + apply in_or_app; left. exact (I2 _ _ (dd_in _ _ I1) ER).
   - (* TF abnormal fin *) simpl in Han. destruct (an body A) as [rb|] eqn:Eb; [|discriminate].
-    destruct (an fin (rN rb)) as [fN|] eqn:EN; [|discriminate].
-    destruct (an fin (rE rb)) as [fE|] eqn:EE; [|discriminate].
-    destruct (an fin (rC rb)) as [fC|] eqn:EC; [|discriminate].
-    destruct (an fin (rR rb)) as [fR|] eqn:ER; [|discriminate]. inversion Han; subst; clear Han.
+    destruct (an fin (dd (rN rb))) as [fN|] eqn:EN; [|discriminate].
+    destruct (an fin (dd (rE rb))) as [fE|] eqn:EE; [|discriminate].
+    destruct (an fin (dd (rC rb))) as [fC|] eqn:EC; [|discriminate].
+    destruct (an fin (dd (rR rb))) as [fR|] eqn:ER; [|discriminate]. inversion Han; subst; clear Han.
     destruct IHexec1 as [I1 _]. destruct IHexec2 as [I2 _]. specialize (I1 _ _ HA Eb).
     destruct o1; simpl in I1;
-      [specialize (I2 _ _ I1 EN)|specialize (I2 _ _ I1 EE)|specialize (I2 _ _ I1 EC)|specialize (I2 _ _ I1 ER)];
+      [specialize (I2 _ _ (dd_in _ _ I1) EN)|specialize (I2 _ _ (dd_in _ _ I1) EE)|specialize (I2 _ _ (dd_in _ _ I1) EC)|specialize (I2 _ _ (dd_in _ _ I1) ER)];
       destruct o2; simpl in *; try congruence; repeat (rewrite in_app_iff); tauto.
   - (* TE pass *) simpl in Han. destruct (an body A) as [rb|] eqn:Eb; [|discriminate].
-    destruct (an h (rE rb)) as [hE|] eqn:EE; [|discriminate].
-    destruct (an h (if cc then rC rb else [])) as [hC|] eqn:EC; [|discriminate]. inversion Han; subst; clear Han.
+    destruct (an h (dd (rE rb))) as [hE|] eqn:EE; [|discriminate].
+    destruct (an h (dd (if cc then rC rb else []))) as [hC|] eqn:EC; [|discriminate]. inversion Han; subst; clear Han.
     destruct IHexec as [I _]. specialize (I _ _ HA Eb).
     destruct H0 as [->|[->|[-> ->]]]; simpl in *; repeat (rewrite in_app_iff); tauto.
   - (* TE catch *) simpl in Han. destruct (an body A) as [rb|] eqn:Eb; [|discriminate].
-    destruct (an h (rE rb)) as [hE|] eqn:EE; [|discriminate].
-    destruct (an h (if cc then rC rb else [])) as [hC|] eqn:EC; [|discriminate]. inversion Han; subst; clear Han.
+    destruct (an h (dd (rE rb))) as [hE|] eqn:EE; [|discriminate].
+    destruct (an h (dd (if cc then rC rb else []))) as [hC|] eqn:EC; [|discriminate]. inversion Han; subst; clear Han.
     destruct IHexec1 as [I1 _]. destruct IHexec2 as [I2 _]. specialize (I1 _ _ HA Eb).
     destruct H0 as [->|[-> ->]]; simpl in I1.
-    + specialize (I2 _ _ I1 EE). destruct oh, rr; simpl in *; repeat (rewrite in_app_iff); tauto.
-    + specialize (I2 _ _ I1 EC). destruct oh, rr; simpl in *; repeat (rewrite in_app_iff); tauto.
+    + specialize (I2 _ _ (dd_in _ _ I1) EE). destruct oh, rr; simpl in *; repeat (rewrite in_app_iff); tauto.
+    + specialize (I2 _ _ (dd_in _ _ I1) EC). destruct oh, rr; simpl in *; repeat (rewrite in_app_iff); tauto.
   - (* Loop0, first conjunct *) simpl in Han. fold (it body) in Han.
-    destruct (an body (it body fuel_loop A)) as [r0|] eqn:Eb; [|discriminate].
-    destruct (subset (rN r0) (it body fuel_loop A)) eqn:Es; [|discriminate]. inversion Han; subst; simpl.
-    now apply it_incl.
+    destruct (an body (it body fuel_loop (dd A))) as [r0|] eqn:Eb; [|discriminate].
+    destruct (subset (rN r0) (it body fuel_loop (dd A))) eqn:Es; [|discriminate]. inversion Han; subst; simpl.
+    apply it_incl. now apply dd_in.
   - (* Loop0, second *) inversion Hc; subst. simpl. exact HX.
   - (* LoopS first *) simpl in Han. fold (it body) in Han.
-    destruct (an body (it body fuel_loop A)) as [r0|] eqn:Eb; [|discriminate].
-    destruct (subset (rN r0) (it body fuel_loop A)) eqn:Es; [|discriminate]. inversion Han; subst; clear Han.
+    destruct (an body (it body fuel_loop (dd A))) as [r0|] eqn:Eb; [|discriminate].
+    destruct (subset (rN r0) (it body fuel_loop (dd A))) eqn:Es; [|discriminate]. inversion Han; subst; clear Han.
     destruct IHexec1 as [I1 _]. destruct IHexec2 as [_ I2].
-    assert (HX: In s (it body fuel_loop A)) by now apply it_incl.
+    assert (HX: In s (it body fuel_loop (dd A))) by (apply it_incl; now apply dd_in).
     specialize (I1 _ _ HX Eb). simpl in I1. eapply subset_in in I1; eauto.
     specialize (I2 body eq_refl _ _ I1 Eb Es). destruct o; simpl in *; auto.
   - (* LoopS second *) inversion Hc; subst.
     destruct IHexec1 as [I1 _]. destruct IHexec2 as [_ I2].
     specialize (I1 _ _ HX Hb). simpl in I1. eapply subset_in in I1; eauto.
   - (* LoopA first *) simpl in Han. fold (it body) in Han.
-    destruct (an body (it body fuel_loop A)) as [r0|] eqn:Eb; [|discriminate].
-    destruct (subset (rN r0) (it body fuel_loop A)) eqn:Es; [|discriminate]. inversion Han; subst; clear Han.
-    destruct IHexec as [I1 _]. assert (HX: In s (it body fuel_loop A)) by now apply it_incl.
+    destruct (an body (it body fuel_loop (dd A))) as [r0|] eqn:Eb; [|discriminate].
+    destruct (subset (rN r0) (it body fuel_loop (dd A))) eqn:Es; [|discriminate]. inversion Han; subst; clear Han.
+    destruct IHexec as [I1 _]. assert (HX: In s (it body fuel_loop (dd A))) by (apply it_incl; now apply dd_in).
     specialize (I1 _ _ HX Eb). destruct o; simpl in *; congruence.
   - (* LoopA second *) inversion Hc; subst. destruct IHexec as [I1 _]. specialize (I1 _ _ HX Hb).
     destruct o; simpl in *; congruence.
